@@ -42,6 +42,7 @@ type c13scn struct {
 	Traffic   string `json:"traffic"`
 	DelayUS   int    `json:"delay_us"`
 	Perturb   bool   `json:"perturb"`
+	HL        bool   `json:"hl,omitempty"` // the observer of a server-initiated end is the high-level Client
 }
 
 var c13initiators = []string{"client-finish", "server-finish", "server-fail", "client-close", "server-close"}
@@ -65,6 +66,12 @@ func (c13) Plan(tier string, seed uint64) []core.Case {
 		for k := 0; k < 35; k++ {
 			scns = append(scns, c13scn{Initiator: c13initiators[k%5], Transport: transports[(k/5+k)%5], Buf: bufs[(k/5)%3], Traffic: traffics[(k+k/5+1)%5], DelayUS: rng.Intn(3000), Perturb: k%3 == 0})
 		}
+		// the high-level Client as the observer of a server-initiated end: it closes the lost session's channel on its own
+		for j, ini := range []string{"server-finish", "server-fail", "server-close"} {
+			for t, tr := range transports {
+				scns = append(scns, c13scn{Initiator: ini, Transport: tr, Buf: bufs[(j+t)%3], Traffic: []string{"idle", "s2c", "c2s"}[(j+t)%3], DelayUS: rng.Intn(3000), Perturb: (j+t)%2 == 0, HL: true})
+			}
+		}
 		// a server that terminates while inbound data is still unread (its handler is busy), on every socket transport
 		k := 0
 		for _, ini := range []string{"server-finish", "server-fail", "server-close"} {
@@ -80,6 +87,9 @@ func (c13) Plan(tier string, seed uint64) []core.Case {
 					for _, b := range bufs {
 						for _, tf := range traffics {
 							scns = append(scns, c13scn{Initiator: ini, Transport: tr, Buf: b, Traffic: tf, DelayUS: rng.Intn(4000), Perturb: rng.Chance(1, 2)})
+							if strings.HasPrefix(ini, "server-") && tf != "backlog" && tf != "unsolicited" && rep == 0 {
+								scns = append(scns, c13scn{Initiator: ini, Transport: tr, Buf: b, Traffic: tf, DelayUS: rng.Intn(4000), Perturb: rng.Chance(1, 2), HL: true})
+							}
 						}
 					}
 				}
@@ -227,12 +237,18 @@ func (p c13) scenario(r *core.Result, s c13scn, seed uint64) {
 	var ctMu sync.Mutex
 	var consumers sync.WaitGroup
 	var clientHandlerHits int64
-	if s.Initiator == "client-close" {
+	if s.Initiator == "client-close" || s.HL {
 		ccfg := lime.NewClientConfig()
 		ccfg.Node = lime.Node{Identity: lime.Identity{Name: "c13", Domain: "verif.local"}, Instance: "i"}
 		ccfg.ChannelBufferSize = s.Buf
 		ccfg.NewTransport = func(ctx context.Context) (lime.Transport, error) {
-			t, err := sr.Dial(ctx, s.Transport, 8, nil)
+			var t lime.Transport
+			var err error
+			if proxy != nil {
+				t, err = rig.DialVia(ctx, s.Transport, proxy.Addr())
+			} else {
+				t, err = sr.Dial(ctx, s.Transport, 8, nil)
+			}
 			if err == nil {
 				ctMu.Lock()
 				clientTransports = append(clientTransports, t)
@@ -554,10 +570,27 @@ func (p c13) scenario(r *core.Result, s c13scn, seed uint64) {
 			fail("initiator-state", "FinishSession returned nil but the client channel is in state %s", st)
 		}
 	} else {
-		if !waitFor(func() bool { return cc.State() == wantState }, c13bound) {
-			fail("observer-state", "the client (still consuming its streams) is in state %s, expected %s: the terminal session envelope was not observed (terminating call returned %v)", cc.State(), wantState, termErr)
-		} else {
+		// The high-level client may notice the end through its closed connection first and close the lost session's
+		// channel on its own before that channel's receiver has applied the terminal envelope: the channel is then
+		// discarded (closed, disconnected), which is what the statement asks of the high-level client.
+		hlDiscarded := func() bool {
+			if client == nil {
+				return false
+			}
+			ctMu.Lock()
+			first := clientTransports[0]
+			ctMu.Unlock()
+			return rcvDone(cc.RcvDone()) && !first.Connected()
+		}
+		if !waitFor(func() bool { return cc.State() == wantState || hlDiscarded() }, c13bound) {
+			ctMu.Lock()
+			nt := len(clientTransports)
+			ctMu.Unlock()
+			fail("observer-state", "the client (still consuming its streams) is in state %s, expected %s: the terminal session envelope was not observed (terminating call returned %v; client session %s, server session %s in state %s, client transports built %d)", cc.State(), wantState, termErr, cc.ID(), srvCh.ID(), srvCh.State(), nt)
+		} else if cc.State() == wantState {
 			r.Count("terminal_observed", 1)
+		} else {
+			r.Count("hl_discarded_before_terminal_applied", 1)
 		}
 	}
 	// (d) the initiator's connection is closed by the terminating call
@@ -586,7 +619,7 @@ func (p c13) scenario(r *core.Result, s c13scn, seed uint64) {
 	if !waitFor(func() bool { return rcvDone(srvCh.RcvDone()) }, c13bound) {
 		fail("server-rcvdone-open", "the server channel's RcvDone is still open")
 	}
-	if s.Initiator != "client-close" {
+	if client == nil {
 		cdone := make(chan struct{})
 		go func() { consumers.Wait(); close(cdone) }()
 		select {
@@ -610,8 +643,32 @@ func (p c13) scenario(r *core.Result, s c13scn, seed uint64) {
 		fail("finished-callback", "the server's Finished callback has not fired (its dispatch loop did not return)")
 	}
 	// (e) the observing side closes its channel; then nothing may be left
-	if s.Initiator != "client-close" {
+	if client == nil {
 		_ = cc.Close()
+	} else if s.Initiator != "client-close" {
+		// the high-level client closes the channel of the session it lost on its own (when its listener rebuilds)
+		ctMu.Lock()
+		first := clientTransports[0]
+		ctMu.Unlock()
+		if !waitFor(func() bool { return !first.Connected() }, c13bound) {
+			fail("observer-did-not-close", "the high-level client has not closed the connection of the session the server ended")
+		} else {
+			r.Count("hl_observer_closed_on_its_own", 1)
+		}
+		cdone := make(chan error, 1)
+		go func() { cdone <- client.Close() }()
+		select {
+		case <-cdone:
+		case <-time.After(c13bound):
+			fail("client-close-blocked", "Client.Close did not return within 15 s after the server had ended the session")
+		}
+		ctMu.Lock()
+		for i, t := range clientTransports {
+			if !waitFor(func() bool { return !t.Connected() }, 2*time.Second) {
+				fail("observer-still-connected", "after Client.Close client transport #%d (of %d built) is still connected", i, len(clientTransports))
+			}
+		}
+		ctMu.Unlock()
 	}
 	_ = srvCh.Close()
 	tdone := make(chan struct{})
